@@ -152,6 +152,9 @@ def _syntactic(case: Case, src_text: str, result_text: str, hook_unpool: bool = 
     clash = new_heads & declared
     if clash:
         return "invented_predicate_collides_with_declaration", str(sorted(clash))
+    used_not_defined = astutil.rule_vocabulary(res) - astutil.defined(res) - voc - declared
+    if used_not_defined:
+        return "invented_predicate_without_definition", str(sorted(used_not_defined))
     src_def = astutil.defined(src)
     for sig in sorted(tuple(s) for s in (case.IN if case.IN != "auto" else [])):
         if sig not in src_def and sig in astutil.defined(res):
@@ -199,9 +202,12 @@ def evaluate(case: Case, tier: str) -> Outcome:
         return base
     if base.status == "discard":
         return base
+    syn = _syntactic(case, case.src, base.result_text) if base.result_text else None
     if base.status == "fail":
+        if syn is not None and syn[0] == "invented_predicate_without_definition":
+            base.failure = {"kind": syn[0], "detail": syn[1], "instance": "", "attribution": {"pass": "interface", "before": case.src, "after": base.result_text}}
+            return base
         return Outcome(status="discard", reason="base_fails")
-    syn = _syntactic(case, case.src, base.result_text)
     kind = case.extra.get("variant", "plain")
     out = Outcome()
     if syn is None and kind != "plain":
